@@ -38,8 +38,10 @@ MODELLED = [
     "azimuth coefficients are not derivatives (cos/sin of the observed value, not divided by the distance) - azimuth "
     "input is refused by the parser (G2), so this code is unreachable from gama-g3",
     "Ellipsoid::xyz2blh (B, L, H of a point) is an input of the frame model (C18's subject)",
-    "operator<< / istringstream>> of numbers: the round-trip theorem assumes rd (fmt x) = x; gama-g3 writes the dump "
-    "with precision(16), which is not bit-faithful for every double (observed relative deviation <= 2e-16)",
+    "operator<< / istringstream>> of numbers: the round-trip theorem is stated for any printer with rd (fmt x) = q x, "
+    "fmt (q x) = fmt x (q = rounding to the printed digits; example: a three-decimal printer); that precision(16) / (17) "
+    "on doubles is such a printer is not proved (gama-g3 writes the dump with precision(16): observed relative "
+    "deviation <= 2e-16)",
     "libm sin/cos/sqrt, IEEE rounding",
 ]
 ASSUMPTIONS = ["approximate coordinates within tol-abs (1 m) of the generating ones, second-order terms of distances / "
@@ -609,6 +611,16 @@ def parse_oracles(ctx, corr, exe, cases, perms):
         elif (a == ["throw"]) != (b == ["throw"]):
             corr.fail("g3 parser: a document is refused in one record order and accepted in another",
                       {"stream": "parse", "records": recs, "order": perms[i]}, "DataParser")
+        # ---- every -dh child reaches the member of the observation it names (the last one if repeated)
+        MEMBERS = {"distance": ["from-dh", "to-dh"], "zenith": ["from-dh", "to-dh"], "vector": ["from-dh", "to-dh"],
+                   "hdiff": ["from-dh", "to-dh"], "angle": ["from-dh", "left-dh", "right-dh"]}
+        for r, l in zip(recs, a if a != ["throw"] else []):
+            want = [dict(r["opts"]).get(t, 0.0) for t in MEMBERS.get(r["kind"], [])]
+            got = [hex2float(x) for x in l.split()[2:]]
+            if want != got:
+                corr.fail(f"g3 parser: {r['kind']} record with children {r['opts']} is built with heights {got}, expected {want}",
+                          {"stream": "parse", "records": recs, "xml": parse_xml(recs)}, f"DataParser::g3_obs_{r['kind']}")
+                break
         # ---- and a record without children gets zero heights
         for r, l in zip(recs, a if a != ["throw"] else []):
             if not r["opts"] and any(hex2float(x) != 0.0 for x in l.split()[2:]):
@@ -842,6 +854,6 @@ LEVEL_TEXT = ("Lean 4 theorems about executable models of what is specific to ga
 LEVEL_NOTE = ("The least-squares solvers behind class Adj are not part of this check (C01-C04). The SAX state table of "
               "the g3 parser, Model::update_init and the result writer are exercised end-to-end only. Angle "
               "coefficients are derivatives only numerically; azimuth coefficients are not derivatives (unreachable "
-              "code). Number formatting is assumed to round-trip (rd (fmt x) = x). Proofs are over exact reals, not "
+              "code). Number formatting enters as a printer law (reading back gives the number rounded to the printed digits). Proofs are over exact reals, not "
               "IEEE doubles.")
 TECHNIQUE = "Lean 4 proof (Mathlib: matrices, derivatives, list permutations) + model/implementation correspondence + end-to-end oracle"
